@@ -249,14 +249,29 @@ impl PointCloud {
                 && limits.blue_min.is_some()
                 && limits.blue_max.is_some()
             {
-                xml += &limits.xml_string();
+                let data_type = |name: RecordName| {
+                    self.prototype
+                        .iter()
+                        .find(|r| r.name == name)
+                        .map(|r| &r.data_type)
+                };
+                xml += &limits.xml_string(
+                    data_type(RecordName::ColorRed),
+                    data_type(RecordName::ColorGreen),
+                    data_type(RecordName::ColorBlue),
+                );
             }
         }
         if let Some(limits) = &self.intensity_limits {
             // All members of the intensity limits struct are required,
             // so we only write the XML if we have all of them!
             if limits.intensity_min.is_some() && limits.intensity_max.is_some() {
-                xml += &limits.xml_string();
+                let data_type = self
+                    .prototype
+                    .iter()
+                    .find(|r| r.name == RecordName::Intensity)
+                    .map(|r| &r.data_type);
+                xml += &limits.xml_string(data_type);
             }
         }
 
